@@ -57,8 +57,12 @@ def main():
             meta = json.load(f)
         for prop in [meta['property']] + list(meta.get('also_check', [])):
             v = run_patch(os.path.join(SEEDED, n, 'patch.diff'), prop, budget, tier)
-            print('%-30s %-4s %s' % (n, prop, v), flush=True)
-            if prop == meta['property'] and not v.startswith('CAUGHT'):
+            if meta.get('status') == 'neutralised':
+                # a repair made to /repo since has closed the window this change needed: it no longer breaks
+                # the property on the repaired tree (see meta.json / DESIGN.md), so silence is the right answer
+                v = 'NEUTRALISED-BY-REPAIR (%s)' % v.split()[0]
+            print('%-46s %-4s %s' % (n, prop, v), flush=True)
+            if prop == meta['property'] and not v.startswith(('CAUGHT', 'NEUTRALISED')):
                 missed += 1
     print('%d seeded change(s), %d missed' % (len(names), missed))
     return 1 if missed else 0
